@@ -381,6 +381,15 @@ pub fn gen_c11(sh: &mut Shards, o: &Opts) -> serde_json::Value {
                         n += 1;
                     }
                 }
+                // a FAILED call in the history: an encode to subsampled YUV of a size that cannot be subsampled (it is rejected -
+                // by a panic on the pinned tree, known finding F4b) right before the judged encodes.  Whatever the failed
+                // call left behind (scratch buffers, thread-local state) must not leak into the next result.
+                if k % 4 == 0 {
+                    let (ow, oh) = (w | 1, h | 1);
+                    let junk: Px = (0..ow * oh).map(|_| [rng.unit() as f32, rng.unit() as f32, rng.unit() as f32]).collect();
+                    let cj = Cfg { ssx: 1, ssy: 1, ..c };
+                    let _ = to_yuv_conv::<u16>("RgbToYuv", &Cfg { n: c.n.max(9), ..cj }, &junk, ow, oh);
+                }
                 for call in ["RgbToYuv", "LinToYuv", "XybToYuv"] {
                     let src: Px = if call == "XybToYuv" { Xyb::from(LinearRgb::new(px.clone(), w, h).unwrap()).data().to_vec() } else { px.clone() };
                     if c.n == 8 && k % 2 == 1 {
